@@ -445,3 +445,63 @@ func tallC15(run *report.Run, acc *pairAcc, n int, gridStep int) {
 	run.Evals += pairs
 	run.Distinct += pairs
 }
+
+// heightC15: pairs of versions on either side of a height change. bf^h + 1 keys (uint 1..bf^h+1, among them
+// the only key of layer h) give height h; without any one key the size allows only h-1. Both directions,
+// for a spread of removed keys: the taller version's top levels are restructured, everything below is common.
+func heightC15(run *report.Run, acc *pairAcc, bf uint, h int) {
+	n := 1
+	for i := 0; i < h; i++ {
+		n *= int(bf)
+	}
+	n++
+	var keys []interface{}
+	for i := 1; i <= n; i++ {
+		keys = append(keys, uint(i))
+	}
+	cfg := world.UintCfg(bf, keys, 1, ref.FormatBinary, "none")
+	cfg.Name = fmt.Sprintf("height-change/uint 1..%d/bf%d", n, bf)
+	cfg.Probes = []interface{}{uint(n + 1000)}
+	base, err := buildBig(cfg, nil, nil)
+	if err != nil {
+		run.HarnessError("%s: %v", cfg.Name, err)
+		return
+	}
+	var pairs int64
+	var removed []int
+	for _, k := range []int{0, 1, n / 3, n/2 - 1, n - 3, n - 2, n - 1} {
+		removed = append(removed, k)
+	}
+	parallelFor(len(removed), func(ri int) {
+		other, err := buildBig(cfg, map[int]bool{removed[ri]: true}, nil)
+		if err != nil {
+			return
+		}
+		st := cloneStore(base.w)
+		for _, nm := range other.w.Store.Names() {
+			b, _ := other.w.Store.Has(nm)
+			st.M[nm] = b
+		}
+		w2 := *base.w
+		w2.Store = st
+		mk := func(bt *bigTree) *version {
+			t, err := bt.root.LoadMast(ctx, w2.RemoteConfig(st, false))
+			if err != nil {
+				return nil
+			}
+			return &version{w: &w2, t: t, root: bt.root, link: linkOf(bt.root), reach: bt.reach, c: world.Contents{M: map[int]int{}, Size: bt.root.Size}}
+		}
+		a, b := mk(base), mk(other)
+		if a == nil || b == nil {
+			return
+		}
+		atomic.AddInt64(&pairs, 2)
+		desc := []string{cfg.Name, fmt.Sprintf("taller version: all %d keys (height %d); shorter version: without key %v (height %d)", n, base.root.Height, cfg.Keys[removed[ri]], other.root.Height)}
+		acc.add(cfg, "C15", checkDiffCost(cfg, a, b), desc)
+		acc.add(cfg, "C15", checkDiffCost(cfg, b, a), desc)
+	})
+	run.Parts = append(run.Parts, map[string]interface{}{"config": cfg.Name, "entries": n, "heights": fmt.Sprintf("%d / %d", base.root.Height, int(base.root.Height)-1), "ordered_pairs": pairs})
+	run.Transitions += pairs
+	run.Evals += pairs
+	run.Distinct += pairs
+}
